@@ -1,5 +1,5 @@
 From Coq Require Import Extraction ExtrOcamlBasic.
 From F8 Require Import Base.Conv C26.SMap C26.PersistSpec C26.MemPersist C26.FilePersist C27.Crash C27.Spec_C27.
 Extraction Language OCaml.
-Extraction "../ocaml/gen/C27/model.ml" keep_types c27_model c27_result c27_ok crash_torn crash_between never_lost
+Extraction "../ocaml/gen/C27/model.ml" keep_types c27_model c27_result c27_model_orig c27_result_orig c27_ok crash_torn crash_between never_lost
   file_empty ops_wf zero_free.
